@@ -6,6 +6,8 @@ export GOFLAGS=-mod=mod GOPROXY=off GOSUMDB=off GOTOOLCHAIN=local
 mkdir -p bin evidence
 go build -o bin/vcheck ./cmd/vcheck
 go build -o bin/vinstr ./cmd/vinstr
+# C10, C11 and C15 build a second worker for GOARCH=386: compile the standard library for it now
+GOARCH=386 CGO_ENABLED=0 go build -o /dev/null ./cmd/vinstr
 # warm the build cache with one instrumented worker build and self-test it
 ./bin/vcheck SELFTEST --tier quick
 # the repository's own tests must pass on the rewritten sources (validates the rewriter)
